@@ -243,7 +243,9 @@ PROPS = {
                       "day-correction loop's invariant and the exactness of time balancing); for rounding relative to a zoned date-time C14_until_rounded_reaches_other (end to end: the date "
                       "part DifferenceZonedDateTime returns leads, by add, to the start of the local-day bracket, its time part reaches "
                       "the other instant exactly from there, and the rounded result leads to an instant less than two steps - one on "
-                      "whole-step days - from the other instant) on top of C14_zoned_time_rounding (NudgeToZonedTime: the time "
+                      "whole-step days - from the other instant) on top of C14_zoned_time_rounding, C14_zoned_calendar_nudge (calendar units "
+                      "and days: the bracket ends are the wall-clock dates resolved in the zone, the position between them is the exact "
+                      "rational rounding of C08, the result is one of the ends) (NudgeToZonedTime: the time "
                       "part is a multiple of the step, a day is added exactly when the rounded time reaches the end of the real local "
                       "day - 23, 24, 25 h ... - and then only the excess over that day is rounded again; the reported instant is the "
                       "bracket end plus the time part and lies within one step, or two on a day that is not a whole number of steps, of "
